@@ -439,6 +439,24 @@ func fixTransferEncoding(requestMethod string, header Header) ([]string, error) 
 // function is not a method, because ultimately it should be shared by
 // ReadResponse and ReadRequest.
 func fixLength(isResponse bool, status int, requestMethod string, header Header, te []string) (int64, error) {
+	contentLens := header["Content-Length"]
+
+	// Hardening against HTTP request smuggling
+	if len(contentLens) > 1 {
+		// Per RFC 7230 Section 3.3.2, prevent multiple
+		// Content-Length headers if they differ in value.
+		// If there are dups of the value, remove the dups.
+		first := strings.Trim(contentLens[0], " \t")
+		for _, ct := range contentLens[1:] {
+			if first != strings.Trim(ct, " \t") {
+				return 0, fmt.Errorf("http: message cannot contain multiple Content-Length headers; got %q", contentLens)
+			}
+		}
+
+		// deduplicate Content-Length
+		header.Del("Content-Length")
+		header.Add("Content-Length", first)
+	}
 
 	// Logic based on response type or status
 	if noBodyExpected(requestMethod) {
@@ -458,13 +476,15 @@ func fixLength(isResponse bool, status int, requestMethod string, header Header,
 	}
 
 	// Logic based on Content-Length
-	cl := strings.TrimSpace(header.GetDirect("Content-Length"))
+	cl := strings.Trim(header.GetDirect("Content-Length"), " \t")
 	if cl != "" {
 		n, err := parseContentLength(cl)
 		if err != nil {
 			return -1, err
 		}
 		return n, nil
+	} else if !isResponse && len(contentLens) > 0 {
+		return -1, &badStringError{"invalid empty Content-Length", cl}
 	} else {
 		header.Del("Content-Length")
 	}
@@ -694,14 +714,15 @@ func (bl bodyLocked) Read(p []byte) (n int, err error) {
 // parseContentLength trims whitespace from s and returns -1 if no value
 // is set, or the value if it's >= 0.
 func parseContentLength(cl string) (int64, error) {
-	cl = strings.TrimSpace(cl)
+	cl = strings.Trim(cl, " \t")
 	if cl == "" {
 		return -1, nil
 	}
-	n, err := strconv.ParseInt(cl, 10, 64)
-	if err != nil || n < 0 {
+	// The Content-Length must be a valid numeric value (1*DIGIT, no sign).
+	n, err := strconv.ParseUint(cl, 10, 63)
+	if err != nil {
 		return 0, &badStringError{"bad Content-Length", cl}
 	}
-	return n, nil
+	return int64(n), nil
 
 }
